@@ -890,8 +890,11 @@ TR.time = CLOCK       # `now()` looks up the module global `time` at call time
 TRACK_ATTRS = [f.name for f in TR.FIELDS if f.name not in ('mmsi', 'last_updated')]
 
 
+TIME_SCALE = [1]        # histories may count time in fractions of a second (op `s:<k>`: unit = 1/k s, k a power of two)
+
+
 def show_time(x):
-    d = _D(repr(float(x)))
+    d = _D(repr(float(x))) * TIME_SCALE[0]
     return str(int(d)) if d == d.to_integral_value() else 't?%r' % x
 
 
@@ -928,6 +931,7 @@ def run_tracker(ordered, ttl, ops):
         tr.register_callback(ev, any_event)
     total = [0]
     CLOCK.t = 0.0
+    TIME_SCALE[0] = 1
     out = []
     # a third observer, one callable per event, that unsubscribes from single events and subscribes again in the
     # course of the history (ops r:<event> / a:<event>): it must be called exactly for the events of the kinds it
@@ -977,7 +981,9 @@ def run_tracker(ordered, ttl, ops):
             pass
         p = op.split(':')
         if p[0] == 't':
-            CLOCK.t = float(p[1])
+            CLOCK.t = float(p[1]) / TIME_SCALE[0]
+        elif p[0] == 's':
+            TIME_SCALE[0] = int(p[1])       # from here on clock values and time stamps are in units of 1/k second
         elif p[0] == 'l':
             tr.ttl_in_seconds = None if p[1] == 'N' else int(p[1])
         elif p[0] == 'r':
@@ -1006,7 +1012,7 @@ def run_tracker(ordered, ttl, ops):
                 out.append('u%s %s' % (err(e), state()))
                 continue
             try:
-                tr.update(s, None if p[2] == 'N' else float(p[2]))
+                tr.update(s, None if p[2] == 'N' else float(p[2]) / TIME_SCALE[0])
                 out.append('u+[%s %s' % (take(), state()))
             except ValueError:
                 out.append('u-[%s %s' % (take(), state()))
